@@ -28,6 +28,55 @@ type corpusMsg struct {
 	// only the framing clause is checked and, when data comes back, that it is one of the listed
 	// alternatives (nil slice = anything goes).
 	nonexistent map[string]bool
+	// MIME shape, written by hand: 'l' leaf, 'm' multipart, 'r' message/rfc822 (one kid: the inner message's top part)
+	shape *pnode
+}
+
+type pnode struct {
+	kind byte
+	kids []*pnode
+}
+
+func lf() *pnode                 { return &pnode{kind: 'l'} }
+func mp(k ...*pnode) *pnode      { return &pnode{kind: 'm', kids: k} }
+func rfc822(inner *pnode) *pnode { return &pnode{kind: 'r', kids: []*pnode{inner}} }
+
+// partMissing reports whether the part path certainly does not exist (RFC 9051 §6.4.5 numbering:
+// a multipart numbers its parts from 1; a message — the whole one or a message/rfc822 part —
+// whose body is not multipart has exactly part 1). ".1" below a leaf part is left open.
+func (m *corpusMsg) partMissing(path []int) bool {
+	n := rfc822(m.shape)
+	for _, k := range path {
+		switch n.kind {
+		case 'm':
+			if k < 1 || k > len(n.kids) {
+				return true
+			}
+			n = n.kids[k-1]
+		case 'r':
+			inner := n.kids[0]
+			if inner.kind == 'm' {
+				if k < 1 || k > len(inner.kids) {
+					return true
+				}
+				n = inner.kids[k-1]
+			} else {
+				if k != 1 {
+					return true
+				}
+				n = inner
+				if inner.kind == 'l' {
+					n = &pnode{kind: 'L'} // the body of a non-multipart message, addressed as its part 1
+				}
+			}
+		default: // leaf
+			if k != 1 {
+				return true
+			}
+			return false // ".1" of a leaf: open
+		}
+	}
+	return false
 }
 
 // ---- M0: plain text ----
@@ -281,7 +330,27 @@ func init() {
 		},
 		nonexistent: map[string]bool{"1": true, "2": true, "3": true, "1.1": true, "2.1": true, "1.2.3": true},
 	}
+	M0.shape, M3.shape, M4.shape = lf(), lf(), lf()
+	M1.shape = mp(lf(), lf())
+	M2.shape = mp(lf(), rfc822(lf()), rfc822(mp(lf(), lf())))
+	M5.shape = mp()
 	corpus = []*corpusMsg{M0, M1, M2, M3, M4, M5}
+	for _, m := range corpus {
+		// the hand-written lists and the shape must agree
+		for k := range m.nonexistent {
+			var path []int
+			for _, x := range strings.Split(k, ".") {
+				n := 0
+				for _, ch := range x {
+					n = n*10 + int(ch-'0')
+				}
+				path = append(path, n)
+			}
+			if !m.partMissing(path) {
+				panic("corpus: " + m.name + " part " + k + " listed as nonexistent but the shape has it")
+			}
+		}
+	}
 }
 
 func (m *corpusMsg) sentTime() *time.Time {
